@@ -44,7 +44,7 @@ var (
 	corpus  = flag.String("corpus", "", "corpus file: <tree tokens>;<data tokens> per line, hex encoded")
 	known   = flag.String("known", "", "known_findings.json")
 	workers = flag.Int("workers", 16, "parallel workers")
-	dev     = flag.String("dev", "uqv", "deviations the current tree is expected to have: u uncomparable panic, q float != x, v int via float64, - none")
+	dev     = flag.String("dev", "uqvbr", "deviations the current tree is expected to have: u uncomparable panic, q float != x, v int via float64, b bare path not an existence test in Filter()/Get(x), r parser takes the second argument of match/search apart, - none")
 )
 
 var rep *lib.Report
@@ -53,9 +53,24 @@ var knownList []lib.Known
 var devIDs = map[byte]string{'u': "C12-uncomparable-panic", 'q': "C12-neq-float", 'v': "C12-int-via-float64"}
 
 const bareID = "C12-bare-path"
+const fnargID = "C12-fn-arg-rotation"
+
+func devHas(c byte) bool { return strings.IndexByte(*dev, c) >= 0 }
+
+// modelDev is the part of -dev the Lean model is parametrised by.
+func modelDev() string {
+	d := strings.ReplaceAll(strings.ReplaceAll(*dev, "b", ""), "r", "")
+	if d == "" {
+		d = "-"
+	}
+	return d
+}
 
 func main() {
 	flag.Parse()
+	if v := os.Getenv("VERIF_C12_DEV"); v != "" {
+		*dev = v // for runs against a patched scratch tree
+	}
 	rep = lib.NewReport(*prop, *tier, *seed)
 	knownList = lib.LoadKnown(*known, *prop)
 	if *replay != "" {
@@ -151,13 +166,18 @@ func main() {
 	if on("bare") {
 		bareFamily(emit)
 	}
+	if on("fnarg") {
+		fnargFamily(emit)
+	}
 	// 3. seeded random nested scripts
-	n := 40000
+	n := 120000
 	if full {
 		n = 600000
 	}
 	if on("random") {
-		g := &rgen{r: lib.NewRng(*seed)}
+		// lib.NewRng(k) and lib.NewRng(k+1) produce the same sequence shifted by one draw; forking hashes the
+		// seed so that different seeds explore different cases
+		g := &rgen{r: lib.NewRng(*seed).Fork(12)}
 		for i := 0; i < n; i++ {
 			emit(g.kase())
 		}
@@ -376,13 +396,13 @@ func runRoutes(k kase) []route {
 		sc := guard2(func() *jp.Script { return eq.Script() })
 		if sc != nil {
 			chars, msg := matchChars(sc, data)
-			rs = append(rs, route{name: "builder.match", mode: "match", key: "self0", impl: chars, msg: msg, wrap0: true})
+			rs = append(rs, route{name: "builder.match", mode: "match", key: "self", impl: chars, msg: msg, wrap0: true})
 			o, m := listOutcome(func() []any { r, _ := sc.Eval([]any{}, data).([]any); return r }, renderList)
-			rs = append(rs, route{name: "builder.eval", mode: "rev", key: "nil0", impl: o, msg: m, wrap0: true})
+			rs = append(rs, route{name: "builder.eval", mode: "rev", key: "nil", impl: o, msg: m, wrap0: true})
 		}
 		x := jp.R().Filter(eq)
 		o, m := listOutcome(func() []any { return x.Get(data) }, renderList)
-		rs = append(rs, route{name: "builder.get", mode: "list", key: "doc0", impl: o, msg: m, wrap0: true})
+		rs = append(rs, route{name: "builder.get", mode: "list", key: "doc", impl: o, msg: m, wrap0: true})
 		o, m = listOutcome(func() []any {
 			if v, has := x.FirstFound(data); has {
 				return []any{v}
@@ -394,14 +414,21 @@ func runRoutes(k kase) []route {
 			}
 			return lib.Render(vs[0])
 		})
-		rs = append(rs, route{name: "builder.first", mode: "first", key: "doc0", impl: o, msg: m, wrap0: true})
+		rs = append(rs, route{name: "builder.first", mode: "first", key: "doc", impl: o, msg: m, wrap0: true})
 		if !k.t.hasRootPath() {
 			md := mapOf(data)
 			o, m = listOutcome(func() []any { return x.Get(md) }, renderSorted)
-			rs = append(rs, route{name: "builder.getmap", mode: "sorted", key: "doc0", impl: o, msg: m, wrap0: true})
+			rs = append(rs, route{name: "builder.getmap", mode: "sorted", key: "doc", impl: o, msg: m, wrap0: true})
 		}
 	}
-	if textOK(k.t) {
+	textRoutesOn := true
+	if devHas('r') && k.parsed == nil && hasFnArgApp(k.t) {
+		// the parser is known to take such scripts apart; they are exercised, with the tree the parser
+		// builds, by the fnarg family only
+		textRoutesOn = false
+		rep.Count("text.skipped_fn_arg_application", 1)
+	}
+	if textRoutesOn && textOK(k.t) {
 		if txt, ok := k.t.text(true); ok {
 			if bare {
 				txt = "(" + txt + ")"
@@ -417,7 +444,7 @@ func runRoutes(k kase) []route {
 					rs = append(rs, route{name: "textmin.parse", mode: "parse", impl: perr, text: txt})
 				} else {
 					chars, msg := matchChars(sc, data)
-					rs = append(rs, route{name: "textmin.match", mode: "match", key: "self0", impl: chars, msg: msg, text: txt})
+					rs = append(rs, route{name: "textmin.match", mode: "match", key: "self", impl: chars, msg: msg, text: txt})
 				}
 			}
 		}
@@ -441,19 +468,15 @@ func textRoutes(prefix, txt string, data []any, bare bool) []route {
 	if isPanic(perr) {
 		return []route{{name: prefix + ".parse", mode: "parse", impl: perr, text: txt}}
 	}
-	key := "self0"
-	if bare {
-		key = "self1"
-	}
 	chars, msg := matchChars(sc, data)
-	rs = append(rs, route{name: prefix + ".match", mode: "match", key: key, impl: chars, msg: msg, text: txt, wrap0: !bare})
+	rs = append(rs, route{name: prefix + ".match", mode: "match", key: "self", impl: chars, msg: msg, text: txt, wrap0: false})
 	var x jp.Expr
 	perr = guard(func() string { x = jp.MustParseString("$[?" + txt + "]"); return "" })
 	if isPanic(perr) {
 		return append(rs, route{name: prefix + ".parsefilter", mode: "parse", impl: perr, text: txt})
 	}
 	o, m := listOutcome(func() []any { return x.Get(data) }, renderList)
-	rs = append(rs, route{name: prefix + ".get", mode: "list", key: "doc0", impl: o, msg: m, text: "$[?" + txt + "]", wrap0: true})
+	rs = append(rs, route{name: prefix + ".get", mode: "list", key: "doc", impl: o, msg: m, text: "$[?" + txt + "]", wrap0: true})
 	return rs
 }
 
@@ -463,7 +486,7 @@ func processBatch(d *lib.Driver, batch []kase) error {
 	var aidx []int
 	for i, k := range batch {
 		if k.arith != nil {
-			areqs = append(areqs, "val\t"+*dev+"\t"+k.arith.op+"\t"+valToks(k.arith.l)+"\t"+valToks(k.arith.r))
+			areqs = append(areqs, "val\t"+modelDev()+"\t"+k.arith.op+"\t"+valToks(k.arith.l)+"\t"+valToks(k.arith.r))
 			aidx = append(aidx, i)
 		}
 	}
@@ -515,18 +538,34 @@ func processBatch(d *lib.Driver, batch []kase) error {
 		tt, dt := tmToks(k.t), valToks(k.data)
 		add := func(key, wrap, root string) {
 			it.reqs[key] = len(reqs)
-			reqs = append(reqs, "run\t"+*dev+"\t"+wrap+"\t"+root+"\t"+tt+"\t"+dt)
+			reqs = append(reqs, "run\t"+modelDev()+"\t"+wrap+"\t"+root+"\t"+tt+"\t"+dt)
 		}
-		add("self0", "0", "self")
+		wraps := []string{"0"}
 		if k.t.kind == 'p' {
-			add("self1", "1", "self")
+			wraps = []string{"0", "1"}
 		}
-		if k.t.hasRootPath() {
-			add("doc0", "0", "doc")
-			add("nil0", "0", "nil")
-		} else {
-			it.reqs["doc0"] = it.reqs["self0"]
-			it.reqs["nil0"] = it.reqs["self0"]
+		for _, w := range wraps {
+			add("self"+w, w, "self")
+			if k.t.hasRootPath() {
+				add("doc"+w, w, "doc")
+				add("nil"+w, w, "nil")
+			} else {
+				it.reqs["doc"+w] = it.reqs["self"+w]
+				it.reqs["nil"+w] = it.reqs["self"+w]
+			}
+		}
+		if k.parsed != nil && devHas('r') {
+			pt := tmToks(k.parsed)
+			addp := func(key, root string) {
+				it.reqs[key] = len(reqs)
+				reqs = append(reqs, "run\t"+modelDev()+"\t0\t"+root+"\t"+pt+"\t"+dt)
+			}
+			addp("pself0", "self")
+			if k.parsed.hasRootPath() {
+				addp("pdoc0", "doc")
+			} else {
+				it.reqs["pdoc0"] = it.reqs["pself0"]
+			}
 		}
 		items[i] = it
 	}
@@ -570,6 +609,8 @@ func judge(k kase, routes []route, model map[string]answer) {
 		}
 		rep.Sample(s)
 	}
+	rep.Count("spec.elements_true", int64(strings.Count(model["self0"].S, "t")))
+	rep.Count("spec.elements_false", int64(strings.Count(model["self0"].S, "f")))
 	byName := map[string]*route{}
 	for ri := range routes {
 		r := &routes[ri]
@@ -587,8 +628,23 @@ func judge(k kase, routes []route, model map[string]answer) {
 			rep.Add(lib.Finding{Kind: "disagreement", Class: "text-not-parsed:" + r.name, What: "script text produced by the harness is rejected by the parser: " + r.impl, Replay: desc})
 			continue
 		}
-		a := model[r.key]
+		// which program the route runs: only a bare path differs (Script() of parsed text turns it into an
+		// existence test; Filter() and Script() of jp.Get(x) do so only once C12-bare-path is repaired)
+		wrap := "0"
+		if bare && (!r.wrap0 || !devHas('b')) {
+			wrap = "1"
+		}
+		a := model[r.key+wrap]
 		expM, expS, expF := expect(r.mode, a.M, k.data), expect(r.mode, a.S, k.data), expect(r.mode, a.F, k.data)
+		rotated := false
+		if k.parsed != nil && devHas('r') && strings.HasPrefix(r.name, "text") {
+			// the model runs the tree the parser builds; the specification keeps the tree that was written
+			pa := model["p"+r.key+"0"]
+			origM := expM
+			expM, expF = expect(r.mode, pa.M, k.data), expect(r.mode, pa.F, k.data)
+			rotated = origM != expM
+			desc["parsed_tree"] = tmToks(k.parsed)
+		}
 		desc["model"], desc["spec"] = expM, expS
 		rep.Count("impl."+outcomeKind(r.impl), 1)
 		tie := r.impl == expM
@@ -605,10 +661,12 @@ func judge(k kase, routes []route, model map[string]answer) {
 		}
 		id := ""
 		if tie {
-			if bare && r.wrap0 {
+			if rotated {
+				id = fnargID
+			} else if bare && r.wrap0 && devHas('b') {
 				id = bareID
 			} else if expF == expS {
-				for _, c := range []byte(*dev) {
+				for _, c := range []byte(modelDev()) {
 					var alt string
 					switch c {
 					case 'u':
@@ -631,7 +689,7 @@ func judge(k kase, routes []route, model map[string]answer) {
 			}
 		}
 		if id != "" && lib.HasKnown(knownList, id) {
-			rep.Add(lib.Finding{Kind: "known", Class: cls, What: "explained by " + id, Replay: desc, KnownID: id})
+			rep.Add(lib.Finding{Kind: "known", Class: cls + ":" + id, What: "explained by " + id, Replay: desc, KnownID: id})
 		} else {
 			what := "implementation verdict differs from the specification"
 			if strings.HasPrefix(cls, "panic") {
@@ -655,8 +713,8 @@ func judge(k kase, routes []route, model map[string]answer) {
 				continue
 			}
 			desc := map[string]any{"tree": tt, "data": dt, "route": pr[0] + " vs " + pr[1], "match": m.impl, "filter": g.impl, "text": m.text, "stream": k.stream}
-			if bare && pr[0] == "text.match" && lib.HasKnown(knownList, bareID) {
-				rep.Add(lib.Finding{Kind: "known", Class: "match-vs-filter:text", What: "explained by " + bareID, Replay: desc, KnownID: bareID})
+			if bare && pr[0] == "text.match" && devHas('b') && lib.HasKnown(knownList, bareID) {
+				rep.Add(lib.Finding{Kind: "known", Class: "match-vs-filter:text:" + bareID, What: "explained by " + bareID, Replay: desc, KnownID: bareID})
 			} else {
 				rep.Add(lib.Finding{Kind: "violation", Class: "match-vs-filter:" + strings.SplitN(pr[0], ".", 2)[0], What: "Script.Match and the filter fragment select different elements", Replay: desc})
 			}
@@ -677,10 +735,14 @@ func runReplay() {
 		fmt.Fprintln(os.Stderr, err)
 		os.Exit(3)
 	}
+	// either a finding written by the runner ({"replay": {"tree": …, "data": …}}) or the bare pair
 	var r struct {
 		Replay map[string]any `json:"replay"`
 	}
 	_ = json.Unmarshal(data, &r)
+	if r.Replay == nil {
+		_ = json.Unmarshal(data, &r.Replay)
+	}
 	ts, _ := r.Replay["tree"].(string)
 	ds, _ := r.Replay["data"].(string)
 	t, e1 := parseTm(ts)
@@ -690,13 +752,17 @@ func runReplay() {
 		fmt.Fprintln(os.Stderr, "bad replay:", e1, e2)
 		os.Exit(3)
 	}
+	var parsed *tm
+	if ps, _ := r.Replay["parsed_tree"].(string); ps != "" {
+		parsed, _ = parseTm(ps)
+	}
 	d, err := lib.StartDriver(*driver)
 	if err != nil {
 		fmt.Fprintln(os.Stderr, err)
 		os.Exit(3)
 	}
 	defer d.Close()
-	if err := processBatch(d, []kase{{t: t, data: elems, stream: "replay"}}); err != nil {
+	if err := processBatch(d, []kase{{t: t, data: elems, parsed: parsed, stream: "replay"}}); err != nil {
 		fmt.Fprintln(os.Stderr, err)
 		os.Exit(3)
 	}
